@@ -188,10 +188,10 @@ def checkGridPolys (c : Case) : CaseResult := Id.run do
       for q in [0:n] do
         let m := polyAns poly (gridPt side q)
         if m % 2 == 1 then inside := inside + 1
-        if polyAnsG poly (gridPt side q) != m % 4 then
-          return { verdict := .diverge s!"inPoly triangle ({i0},{i1},{i2}) q={q}: generated kernel differs from model (translator)" }
         if tri[it]? != some (digit m) then
           return { verdict := .specfail s!"inPoly/inPolyGen triangle ({i0},{i1},{i2}) q={q} side={side}: impl {tri[it]?} exact {m} (bits: inPoly border, inPoly strict, inPolyGen)" }
+        if polyAnsG poly (gridPt side q) != m % 4 then
+          return { verdict := .diverge s!"inPoly triangle ({i0},{i1},{i2}) q={q}: generated kernel differs from model (translator)" }
         it := it + 1
       if quads then
         for i3 in [0:n] do
@@ -242,13 +242,13 @@ def checkRandomPolys (c : Case) : CaseResult := Id.run do
       | some v =>
         let q : Pt := ⟨v[0]!, v[1]!⟩
         let m := polyAns poly q
-        if polyAnsG poly q != m % 4 then
-          return { verdict := .diverge s!"inPoly random polygon: generated kernel differs from model (translator)" }
         let impl := nat! l[3]! + 2 * nat! l[4]! + 4 * nat! l[5]!
         calls := calls + 3
         if m % 2 == 1 then inside := inside + 1
         if impl != m then
           return { verdict := .specfail s!"inPoly/inPolyGen poly={poly.map (fun p => (ratToString p.x, ratToString p.y))} q=({ratToString q.x},{ratToString q.y}): impl {impl} exact {m} (bits: inPoly border, inPoly strict, inPolyGen)" }
+        if polyAnsG poly q != m % 4 then
+          return { verdict := .diverge s!"inPoly random polygon: generated kernel differs from model (translator)" }
   return { verdict := .ok, nontrivial := inside > 0, stats := [("calls", calls), ("inpoly.true", inside)] }
 
 def run (_args : List String) : IO UInt32 :=
